@@ -6,7 +6,7 @@ PATCH="$1"; shift
 CHECKS="${*:-C01 C02 C03 C04 C05 C06 C07 C08 C09 C13 C14 C15 C17 C18}"
 cd /repo || exit 2
 if [ -n "$(git status --porcelain -- src)" ]; then echo "refusing: /repo/src is not clean"; exit 2; fi
-trap 'git -C /repo checkout -- . ; ' EXIT INT TERM
+trap 'git -C /repo checkout -- . ; (cd /verif/sim && CARGO_NET_OFFLINE=true cargo build --release --offline >/dev/null 2>&1)' EXIT INT TERM
 if ! git apply "$PATCH"; then echo "patch does not apply"; exit 2; fi
 cd /verif/sim && CARGO_NET_OFFLINE=true cargo build --release --offline >/dev/shm/try-build.log 2>&1 || { echo "BUILD FAILED"; tail -20 /dev/shm/try-build.log; exit 2; }
 for c in $CHECKS; do
